@@ -17,3 +17,8 @@ Definition src_jaeger_divs : list N := [1000; 1000; 1000].
 Definition src_size_cmp_ge : bool := true.
 Definition src_single_le : N := 1.
 Definition src_halving : N := 2.
+Definition src_epoch_bits_counter : N := 64.
+Definition src_epoch_bits_stamp : N := 64.
+Definition src_epoch_bits_handle : N := 64.
+Definition src_epoch_bits_line_handle : N := 64.
+Definition src_epoch_casts : N := 0.
